@@ -7,6 +7,8 @@ NOTE = ("Trusted: z3, CPython, the symnp NumPy model (conformance-tested against
         "the oracle in props/%s.py. Exact reals / unbounded ints (no IEEE rounding, no overflow); sizes beyond the stated bounds, datetime axes, duplicate labels, NumPy view aliasing are outside the claim.")
 CLAIMS = {
  'C01': "For every structural case in the bound (0-4 dims, axis lengths 1-4, every index kind per dimension, every spelling) the real indexing code runs symbolically over all label orders, all queried labels (present or absent), mask bits, tolerances and data; z3 discharges 'result == cells at the looked-up labels, IndexError iff a label is absent' on every path.",
+ 'C03': "For every index form of C01/C02 (1-3 dims, scalars, lists, masks, slices, dicts, full N-d masks, positional), scalar / array / broadcast right-hand sides, both inplace settings and all (array kind, assigned kind) pairs among bool/int/float/object/str, the real assignment code runs symbolically; z3 discharges 'exactly the addressed cells hold the assigned values, everything else (cells, labels, dims, attrs, original when inplace=False) is unchanged, read-back returns what was written'.",
+ 'C07': "For every structural case (axis length 1-4, 0-3 new labels, axis position in 1-3 dims, list/ndarray/Axis argument, fill value, raise_error, method) reindex_axis / reindex_like run symbolically over all old label orders and all new labels (subset, superset, disjoint, permuted, repeated); z3 discharges 'axis == new labels, slice at a new label == old slice if present else fill'.",
  'C02': "For every structural case (axis length 0-5, direction, step, open/closed bounds, label kind, neighbouring index kinds) the real slicing code is executed symbolically over all label / bound / data values and z3 discharges the inclusive-box obligation on every path.",
 }
 NA = [("C20", "every statement is about dimarray/io/nc.py driving the netCDF4 extension, which is not installed (the module does not import): no code to execute symbolically and no real stack to validate a model against")]
